@@ -28,6 +28,7 @@ import (
 	"path/filepath"
 	"strings"
 	"sync"
+	"sync/atomic"
 	"testing"
 	"time"
 
@@ -90,10 +91,26 @@ func (c stepClock) After(d time.Duration) <-chan time.Time {
 
 // ---------------------------------------------------------------- issuer side
 
+// root -> intermediate -> leaf.  Certificate ids in the traces are serial numbers: a leaf has the number of its
+// request, the intermediate CA intID, the self-signed root rootID.
 type authority struct {
-	key  *ecdsa.PrivateKey
-	cert *x509.Certificate
-	pem  []byte
+	key  *ecdsa.PrivateKey // intermediate CA key (signs the leaves)
+	cert *x509.Certificate // intermediate CA
+	root *x509.Certificate
+	pem  []byte // root, PEM
+}
+
+const (
+	intID  = 1000001
+	rootID = 1000002
+)
+
+func certIDs(cs []*x509.Certificate) []int {
+	ids := []int{}
+	for _, c := range cs {
+		ids = append(ids, int(c.SerialNumber.Int64()))
+	}
+	return ids
 }
 
 func newAuthority() (*authority, error) {
@@ -101,7 +118,7 @@ func newAuthority() (*authority, error) {
 	if err != nil {
 		return nil, err
 	}
-	tpl := &x509.Certificate{SerialNumber: big.NewInt(1 << 40), Subject: pkix.Name{CommonName: "c19 root"},
+	tpl := &x509.Certificate{SerialNumber: big.NewInt(rootID), Subject: pkix.Name{CommonName: "c19 root"},
 		NotBefore: base.Add(-20 * 365 * 24 * time.Hour), NotAfter: base.Add(40 * 365 * 24 * time.Hour),
 		IsCA: true, KeyUsage: x509.KeyUsageCertSign, BasicConstraintsValid: true}
 	der, err := x509.CreateCertificate(rand.Reader, tpl, tpl, &k.PublicKey, k)
@@ -112,10 +129,25 @@ func newAuthority() (*authority, error) {
 	if err != nil {
 		return nil, err
 	}
-	return &authority{key: k, cert: c, pem: pem.EncodeToMemory(&pem.Block{Type: "CERTIFICATE", Bytes: der})}, nil
+	ik, err := ecdsa.GenerateKey(elliptic.P256(), rand.Reader)
+	if err != nil {
+		return nil, err
+	}
+	itpl := &x509.Certificate{SerialNumber: big.NewInt(intID), Subject: pkix.Name{CommonName: "c19 intermediate"},
+		NotBefore: tpl.NotBefore, NotAfter: tpl.NotAfter, IsCA: true, KeyUsage: x509.KeyUsageCertSign, BasicConstraintsValid: true}
+	ider, err := x509.CreateCertificate(rand.Reader, itpl, c, &ik.PublicKey, k)
+	if err != nil {
+		return nil, err
+	}
+	ic, err := x509.ParseCertificate(ider)
+	if err != nil {
+		return nil, err
+	}
+	return &authority{key: ik, cert: ic, root: c, pem: pem.EncodeToMemory(&pem.Block{Type: "CERTIFICATE", Bytes: der})}, nil
 }
 
-func (a *authority) issue(n int, pub any, nb, na time.Time, withID bool) ([]*x509.Certificate, error) {
+// issue answers [leaf, intermediate] or, withRoot, [leaf, intermediate, root]
+func (a *authority) issue(n int, pub any, nb, na time.Time, withID, withRoot bool) ([]*x509.Certificate, error) {
 	tpl := &x509.Certificate{SerialNumber: big.NewInt(int64(n)), NotBefore: nb, NotAfter: na,
 		KeyUsage: x509.KeyUsageDigitalSignature, ExtKeyUsage: []x509.ExtKeyUsage{x509.ExtKeyUsageServerAuth, x509.ExtKeyUsageClientAuth}}
 	if withID {
@@ -129,6 +161,9 @@ func (a *authority) issue(n int, pub any, nb, na time.Time, withID bool) ([]*x50
 	c, err := x509.ParseCertificate(der)
 	if err != nil {
 		return nil, err
+	}
+	if withRoot {
+		return []*x509.Certificate{c, a.cert, a.root}, nil
 	}
 	return []*x509.Certificate{c, a.cert}, nil
 }
@@ -223,7 +258,7 @@ func (k *keyring) id(pub any, add bool) int {
 }
 
 func observeFiles(target string, kr *keyring) tv.M {
-	m := tv.M{"set": "none", "key": 0, "cert": 0, "ca": 0}
+	m := tv.M{"set": "none", "key": 0, "cert": 0, "chain": []int{}, "ca": 0}
 	if _, err := os.Stat(target); err != nil {
 		return m
 	}
@@ -249,6 +284,7 @@ func observeFiles(target string, kr *keyring) tv.M {
 	m["set"] = "set"
 	m["key"] = kr.id(signer.Public(), false)
 	m["cert"] = int(certs[0].SerialNumber.Int64())
+	m["chain"] = certIDs(certs)
 	m["ca"] = ver
 	return m
 }
@@ -338,7 +374,7 @@ func runScenario(b, hb *tv.Batch, sc scenario, seed int64, ca *authority, tmp st
 			case "empty":
 				chain = []*x509.Certificate{}
 			default:
-				chain, rerr = ca.issue(n, csr.PublicKey, base.Add(time.Duration(now+a.NB)*time.Second), base.Add(time.Duration(now+a.NA)*time.Second), a.Kind == "ok")
+				chain, rerr = ca.issue(n, csr.PublicKey, base.Add(time.Duration(now+a.NB)*time.Second), base.Add(time.Duration(now+a.NA)*time.Second), a.Kind == "ok", (seed>>uint(16+n%16))&1 == 1)
 			}
 			imu.Lock()
 			nans = n
@@ -347,7 +383,7 @@ func runScenario(b, hb *tv.Batch, sc scenario, seed int64, ca *authority, tmp st
 				initGood = lastGood
 			}
 			imu.Unlock()
-			rec.ev("issue", tv.M{"n": n, "ok": a.Kind != "err", "chain": a.Kind != "empty", "hasid": a.Kind == "ok",
+			rec.ev("issue", tv.M{"n": n, "ok": a.Kind != "err", "chain": a.Kind != "empty", "certs": certIDs(chain), "hasid": a.Kind == "ok",
 				"nb": now + a.NB, "na": now + a.NA, "anchors": ver})
 			return chain, rerr
 		}}
@@ -358,7 +394,38 @@ func runScenario(b, hb *tv.Batch, sc scenario, seed int64, ca *authority, tmp st
 	s.VerifSetClock(clk)
 	src, _ := spiffecontext.From(spiffecontext.With(context.Background(), s))
 
+	// probe: at a quiescent point with nothing held at a gate the driver itself asks for the SVID served (every
+	// other goroutine is blocked, so the hook calls seen while probing are the driver's own: not recorded, not gated)
+	var probing atomic.Bool
+	probe := func() int {
+		imu.Lock()
+		answered := nans >= 1 && nans == nreq
+		imu.Unlock()
+		if !answered {
+			return -1
+		}
+		probing.Store(true)
+		defer probing.Store(false)
+		ch := make(chan int, 1)
+		go func() {
+			svid, err := src.GetX509SVID()
+			if err != nil || svid == nil || len(svid.Certificates) == 0 {
+				ch <- 0
+				return
+			}
+			ch <- int(svid.Certificates[0].SerialNumber.Int64())
+		}()
+		select {
+		case v := <-ch:
+			return v
+		case <-time.After(time.Second):
+			return -1
+		}
+	}
 	spiffe.VerifHook = func(point string, kv ...any) {
+		if probing.Load() {
+			return
+		}
 		rec.hook(point)
 		ctl.Point(point, kv...)
 	}
@@ -403,9 +470,10 @@ func runScenario(b, hb *tv.Batch, sc scenario, seed int64, ca *authority, tmp st
 	nextR, nextG := 0, 0
 	doGet := func(g, pg int) {
 		svid, err := src.GetX509SVID()
-		m := tv.M{"g": g, "pg": pg, "svid": 0, "key": 0, "err": err != nil}
+		m := tv.M{"g": g, "pg": pg, "svid": 0, "key": 0, "chain": []int{}, "err": err != nil}
 		if err == nil && svid != nil && len(svid.Certificates) > 0 {
 			m["svid"] = int(svid.Certificates[0].SerialNumber.Int64())
+			m["chain"] = certIDs(svid.Certificates)
 			if svid.PrivateKey != nil {
 				m["key"] = kr.id(svid.PrivateKey.Public(), false)
 			}
@@ -517,7 +585,7 @@ func runScenario(b, hb *tv.Batch, sc scenario, seed int64, ca *authority, tmp st
 			if sc.Dir {
 				rec.ev("files", observeFiles(target, kr))
 			}
-			rec.ev("quiescent", nil)
+			rec.ev("quiescent", tv.M{"served": probe()})
 		}
 	}
 	startName := func(i int) string { return fmt.Sprintf("start:c%d:%s", i, clients[i].ops[clients[i].next].Op) }
@@ -532,7 +600,7 @@ func runScenario(b, hb *tv.Batch, sc scenario, seed int64, ca *authority, tmp st
 			}
 			cs = append(cs, sched.Choice{Kind: "start", Name: startName(i), Do: startOp(c, i)})
 		}
-		if len(sc.Steps) > 0 && stepsLeft > 0 && rotating(-1) && !finished() {
+		if len(sc.Steps) > 0 && stepsLeft > 0 && rotating(-1) && !finished() && nowS() < 500_000_000 { // (TLC integers are 32 bit)
 			onlyGets := true
 			for _, p := range ctl.Parked() {
 				if !strings.HasPrefix(p.Point, "spiffe.get.") {
@@ -638,7 +706,7 @@ func runScenario(b, hb *tv.Batch, sc scenario, seed int64, ca *authority, tmp st
 			if sc.Dir {
 				rec.ev("files", observeFiles(target, kr))
 			}
-			rec.ev("quiescent", nil)
+			rec.ev("quiescent", tv.M{"served": probe()})
 		}
 		rec.ev("stuck", tv.M{"n": res.stuck})
 	}
@@ -782,28 +850,33 @@ func genRandomOrder(rng *mrand.Rand, i int) scenario {
 }
 
 var keys = map[string]string{
-	"deadlock: Run was called but can never start the initial fetch while GetX509SVID waits for readiness":                 "deadlock:get-before-run",
-	"deadlock: Run was called but never started the initial fetch":                                                         "deadlock:run-never-fetched",
-	"deadlock: Ready or GetX509SVID calls never return although the initial fetch finished":                                "deadlock:after-initial-fetch",
-	"Ready returned before the initial fetch finished":                                                                     "ready:before-initial-fetch",
-	"GetX509SVID returned before the initial fetch finished":                                                               "get:before-initial-fetch",
-	"a consumer released by Ready got no SVID although the initial fetch succeeded":                                        "ready:released-consumer-got-no-svid",
-	"GetX509SVID returned an error although the initial fetch succeeded":                                                   "get:no-svid-after-successful-fetch",
-	"GetX509SVID returned an SVID although the initial fetch failed":                                                       "get:svid-after-failed-fetch",
-	"the SVID served was never successfully fetched: a failed or rejected renewal disturbed it":                            "served:not-a-successful-fetch",
-	"the SVID served is older than the most recently fetched one":                                                          "served:stale",
-	"the SVID served carries a private key that does not belong to its certificate":                                        "served:key-mismatch",
-	"a certificate that was not accepted (and its throw-away key) was published to the identity directory":                 "files:rejected-certificate-published",
-	"the identity directory holds files of a fetch that did not succeed":                                                   "files:failed-fetch-at-rest",
-	"the identity directory does not hold the most recently fetched SVID":                                                  "files:stale",
-	"key.pem and cert.pem in the identity directory belong to different fetches":                                           "files:key-cert-mismatch",
-	"ca.pem in the identity directory is not the trust anchors current at the fetch":                                       "files:stale-trust-anchors",
-	"the identity directory does not hold one complete file set":                                                           "files:incomplete-set",
-	"no renewal was requested within one minute although the certificate handed out was already past half of its validity": "renewal:late:handed-out-past-half-life",
-	"no renewal was requested within one minute after the certificate passed half of its validity":                         "renewal:late:after-half-life",
-	"a failed renewal was not retried after 10 s":                                                                          "retry:late",
-	"a failed renewal was retried earlier than 10 s after the failure":                                                     "retry:early",
-	"a fetch reused the private key of an earlier fetch":                                                                   "key:reused",
+	"deadlock: Run was called but can never start the initial fetch while GetX509SVID waits for readiness":                  "deadlock:get-before-run",
+	"deadlock: Run was called but never started the initial fetch":                                                          "deadlock:run-never-fetched",
+	"deadlock: Ready or GetX509SVID calls never return although the initial fetch finished":                                 "deadlock:after-initial-fetch",
+	"Ready returned before the initial fetch finished":                                                                      "ready:before-initial-fetch",
+	"GetX509SVID returned before the initial fetch finished":                                                                "get:before-initial-fetch",
+	"a consumer released by Ready got no SVID although the initial fetch succeeded":                                         "ready:released-consumer-got-no-svid",
+	"GetX509SVID returned an error although the initial fetch succeeded":                                                    "get:no-svid-after-successful-fetch",
+	"GetX509SVID returned an SVID although the initial fetch failed":                                                        "get:svid-after-failed-fetch",
+	"the SVID served was never successfully fetched: a failed or rejected renewal disturbed it":                             "served:not-a-successful-fetch",
+	"the SVID served is older than the most recently fetched one":                                                           "served:stale",
+	"the SVID served carries a private key that does not belong to its certificate":                                         "served:key-mismatch",
+	"a certificate that was not accepted (and its throw-away key) was published to the identity directory":                  "files:rejected-certificate-published",
+	"the identity directory holds files of a fetch that did not succeed":                                                    "files:failed-fetch-at-rest",
+	"the identity directory does not hold the most recently fetched SVID":                                                   "files:stale",
+	"key.pem and cert.pem in the identity directory belong to different fetches":                                            "files:key-cert-mismatch",
+	"ca.pem in the identity directory is not the trust anchors current at the fetch":                                        "files:stale-trust-anchors",
+	"the identity directory does not hold one complete file set":                                                            "files:incomplete-set",
+	"no renewal was requested within one minute although the certificate handed out was already past half of its validity":  "renewal:late:handed-out-past-half-life",
+	"no renewal was requested within one minute after the certificate passed half of its validity":                          "renewal:late:after-half-life",
+	"a failed renewal was not retried after 10 s":                                                                           "retry:late",
+	"a failed renewal was retried earlier than 10 s after the failure":                                                      "retry:early",
+	"the identity directory holds an identity newer than the SVID served: disk and memory diverge":                          "files:newer-than-served",
+	"the SVID served at rest is not the most recently fetched one":                                                          "served:not-latest-at-rest",
+	"renewal never completes: the issuer answers with good certificates and is asked again at once, time after time":        "renewal:never-completes",
+	"cert.pem in the identity directory differs from the certificate chain of the served SVID (self-signed roots excepted)": "files:cert-chain-differs-from-served-svid",
+	"the SVID served does not carry the certificate chain the issuer answered":                                              "served:chain-differs-from-issued",
+	"a fetch reused the private key of an earlier fetch":                                                                    "key:reused",
 }
 
 func keyOf(why string) string {
@@ -1084,39 +1157,39 @@ func selfTest(e *ev.Evidence) {
 		m           tv.M
 	}
 	files := func(l string, k, c, a int) evt {
-		return evt{l, "files", tv.M{"set": "set", "key": k, "cert": c, "ca": a}}
+		return evt{l, "files", tv.M{"set": "set", "key": k, "cert": c, "chain": []int{c, intID}, "ca": a}}
 	}
 	baseTrace := func() []evt {
 		return []evt{
 			{"ready1", "ready_call", tv.M{"r": 1}},
 			{"run", "run_call", tv.M{}},
 			{"req1", "req", tv.M{"n": 1, "now": 0, "keyid": 1}},
-			{"iss1", "issue", tv.M{"n": 1, "ok": true, "chain": true, "hasid": true, "nb": 0, "na": 100, "anchors": 1}},
+			{"iss1", "issue", tv.M{"n": 1, "ok": true, "chain": true, "certs": []int{1, intID}, "hasid": true, "nb": 0, "na": 100, "anchors": 1}},
 			files("f1", 1, 1, 1),
 			{"ready1ret", "ready_ret", tv.M{"r": 1, "err": false}},
 			{"get1", "get_call", tv.M{"g": 1, "after": 1}},
-			{"get1ret", "get_ret", tv.M{"g": 1, "svid": 1, "key": 1, "err": false}},
+			{"get1ret", "get_ret", tv.M{"g": 1, "svid": 1, "key": 1, "chain": []int{1, intID}, "err": false}},
 			files("f1q", 1, 1, 1),
-			{"q1", "quiescent", tv.M{}},
+			{"q1", "quiescent", tv.M{"served": 1}},
 			{"adv50", "adv", tv.M{"now": 50}},
 			{"req2", "req", tv.M{"n": 2, "now": 50, "keyid": 2}},
-			{"iss2", "issue", tv.M{"n": 2, "ok": true, "chain": true, "hasid": false, "nb": 50, "na": 150, "anchors": 2}},
+			{"iss2", "issue", tv.M{"n": 2, "ok": true, "chain": true, "certs": []int{2, intID, rootID}, "hasid": false, "nb": 50, "na": 150, "anchors": 2}},
 			files("f2q", 1, 1, 1),
-			{"q2", "quiescent", tv.M{}},
+			{"q2", "quiescent", tv.M{"served": 1}},
 			{"adv60", "adv", tv.M{"now": 60}},
 			{"req3", "req", tv.M{"n": 3, "now": 60, "keyid": 3}},
-			{"iss3", "issue", tv.M{"n": 3, "ok": true, "chain": true, "hasid": true, "nb": 0, "na": 70, "anchors": 2}},
+			{"iss3", "issue", tv.M{"n": 3, "ok": true, "chain": true, "certs": []int{3, intID}, "hasid": true, "nb": 0, "na": 70, "anchors": 2}},
 			files("f3", 3, 3, 2),
 			{"req4", "req", tv.M{"n": 4, "now": 60, "keyid": 4}},
-			{"iss4", "issue", tv.M{"n": 4, "ok": true, "chain": true, "hasid": true, "nb": 60, "na": 1000060, "anchors": 2}},
+			{"iss4", "issue", tv.M{"n": 4, "ok": true, "chain": true, "certs": []int{4, intID, rootID}, "hasid": true, "nb": 60, "na": 1000060, "anchors": 2}},
 			files("f4", 4, 4, 2),
 			files("f4q", 4, 4, 2),
-			{"q3", "quiescent", tv.M{}},
+			{"q3", "quiescent", tv.M{"served": 4}},
 			{"get2", "get_call", tv.M{"g": 2, "after": 0}},
-			{"get2ret", "get_ret", tv.M{"g": 2, "svid": 4, "key": 4, "err": false}},
+			{"get2ret", "get_ret", tv.M{"g": 2, "svid": 4, "key": 4, "chain": []int{4, intID, rootID}, "err": false}},
 			{"adv200", "adv", tv.M{"now": 200}},
 			files("f5q", 4, 4, 2),
-			{"q4", "quiescent", tv.M{}},
+			{"q4", "quiescent", tv.M{"served": 4}},
 			{"stuck", "stuck", tv.M{"n": 0}},
 		}
 	}
@@ -1151,20 +1224,37 @@ func selfTest(e *ev.Evidence) {
 	}
 	muts := []mut{
 		{"valid", func(t []evt) []evt { return t }},
-		{"consumer-got-no-svid", func(t []evt) []evt { return edit(t, "get1ret", tv.M{"svid": 0, "key": 0, "err": true}) }},
-		{"rejected-cert-on-disk", func(t []evt) []evt { return edit(t, "f2q", tv.M{"key": 2, "cert": 2, "ca": 2}) }},
+		{"consumer-got-no-svid", func(t []evt) []evt {
+			return edit(t, "get1ret", tv.M{"svid": 0, "key": 0, "chain": []int{}, "err": true})
+		}},
+		{"rejected-cert-on-disk", func(t []evt) []evt {
+			return edit(t, "f2q", tv.M{"key": 2, "cert": 2, "chain": []int{2, intID}, "ca": 2})
+		}},
 		{"retry-after-5s", func(t []evt) []evt { return edit(edit(t, "adv60", tv.M{"now": 55}), "req3", tv.M{"now": 55}) }},
 		{"retry-missing", func(t []evt) []evt {
 			return edit(drop(t, "req3", "iss3", "f3", "req4", "iss4", "f4", "f4q", "q3", "get2", "get2ret", "adv200", "f5q", "q4"), "x", nil)
 		}},
 		{"past-half-life-not-renewed", func(t []evt) []evt {
 			t = drop(t, "req4", "iss4", "f4")
-			t = edit(t, "f4q", tv.M{"key": 3, "cert": 3})
-			t = edit(t, "f5q", tv.M{"key": 3, "cert": 3})
-			return edit(t, "get2ret", tv.M{"svid": 3, "key": 3})
+			t = edit(t, "f4q", tv.M{"key": 3, "cert": 3, "chain": []int{3, intID}})
+			t = edit(t, "f5q", tv.M{"key": 3, "cert": 3, "chain": []int{3, intID}})
+			t = edit(edit(t, "q3", tv.M{"served": 3}), "q4", tv.M{"served": 3})
+			return edit(t, "get2ret", tv.M{"svid": 3, "key": 3, "chain": []int{3, intID}})
 		}},
 		{"key-reused", func(t []evt) []evt { return edit(t, "req3", tv.M{"keyid": 1}) }},
-		{"served-stale", func(t []evt) []evt { return edit(t, "get2ret", tv.M{"svid": 1, "key": 1}) }},
+		{"served-stale", func(t []evt) []evt { return edit(t, "get2ret", tv.M{"svid": 1, "key": 1, "chain": []int{1, intID}}) }},
+		{"files-newer-than-served", func(t []evt) []evt { return edit(t, "q3", tv.M{"served": 3}) }},
+		{"cert-pem-holds-only-the-leaf", func(t []evt) []evt { return edit(t, "f4", tv.M{"chain": []int{4}}) }},
+		{"served-chain-truncated", func(t []evt) []evt { return edit(t, "get2ret", tv.M{"chain": []int{4}}) }},
+		{"renewal-never-completes", func(t []evt) []evt {
+			out := []evt{t[1]} // run_call
+			for n := 1; n <= 4; n++ {
+				out = append(out, evt{"r", "req", tv.M{"n": n, "now": 0, "keyid": n}},
+					evt{"i", "issue", tv.M{"n": n, "ok": true, "chain": true, "certs": []int{n, intID}, "hasid": true, "nb": 0, "na": 100000, "anchors": 1}},
+					files("f", n, n, 1))
+			}
+			return append(out, t[len(t)-1])
+		}},
 		{"files-of-different-fetches", func(t []evt) []evt { return edit(t, "f4", tv.M{"key": 3}) }},
 		{"ready-never-returns", func(t []evt) []evt {
 			return edit(drop(t, "ready1ret", "get1", "get1ret"), "stuck", tv.M{"n": 1})
@@ -1176,6 +1266,7 @@ func selfTest(e *ev.Evidence) {
 					out = append(out, x)
 				}
 			}
+			out = edit(out, "q1", tv.M{"served": -1})
 			return edit(out, "stuck", tv.M{"n": 1})
 		}},
 	}
@@ -1183,7 +1274,7 @@ func selfTest(e *ev.Evidence) {
 	for _, mu := range muts {
 		t := mu.f(baseTrace())
 		if mu.name == "retry-missing" { // the failed renewal at 50 s is never retried although the clock reaches 60 s
-			t = append(t[:len(t)-1], evt{"q2b", "quiescent", tv.M{}}, evt{"stuck", "stuck", tv.M{"n": 0}})
+			t = append(t[:len(t)-1], evt{"q2b", "quiescent", tv.M{"served": 1}}, evt{"stuck", "stuck", tv.M{"n": 0}})
 		}
 		b.Start(tv.M{"dir": true})
 		for _, x := range t {
